@@ -887,6 +887,7 @@ class ExtendedZoneProcessor: public ZoneProcessor {
       }
 
       mYear = year;
+      mIsFilled = false; // cache is invalid until it has been rebuilt
       mNumMatches = 0; // clear cache
       mTransitionStorage.init();
 
